@@ -113,6 +113,36 @@ theorem solid_q_e (c : Ctx α) (solidStage : Bool) (time : α) (T : Array α) (j
   rw [if_pos hw]
   rfl
 
+/-- **the whole statement group** of the 2D cooling loop (`if window: N_w = Utils.vapour_flux(…, p_vap, T_l, T_v);
+q_e = -N_w*dHe else: q_e = 0`, `T_l = T_v = T_k[-1, :]`, `p_vap = Utils.vapour_pressure_liquid(T_l)`), per column:
+window condition, call arguments, sign and else-branch are the model's `qEvap` (repaired code: liquid curve) -/
+theorem cool_q_e_if (c : Ctx α) (hv : c.p.config = .visf) (hf : c.f.coolingSolidPvap = false) (dt i : α)
+    (T : Array α) (j : Nat) :
+    qEvap c false (dt * i) T j =
+      F2D.cool_q_e_if (dt := dt) (i := i) (t_vac_start := c.p.t_vac_start) (t_vac_duration := c.p.t_vac_duration)
+        (kappa := c.p.kappa) (m_water := c.p.m_water) (k_B := c.p.k_B) (p_vac := c.p.p_vac)
+        (T_k_m1 := rd c.Nr T (c.Nz - 1) j) (np_pi := c.p.pi) (dHe := c.p.dHe) := by
+  simp only [qEvap, hv, F2D.cool_q_e_if]
+  by_cases hw : c.p.t_vac_start * ofNat' 3600 < dt * i ∧
+      dt * i < (c.p.t_vac_start + c.p.t_vac_duration) * ofNat' 3600
+  · simp only [hw.1, hw.2, and_self, decide_true, Bool.and_self, if_true, hf, Bool.or_false, Bool.false_eq_true,
+      if_false]
+    rfl
+  · simp only [Bool.and_eq_true, decide_eq_true_eq, hw, if_false]
+
+/-- the same statement group of the 2D solidification loop (`t_nuc + dt*i`, ice curve) -/
+theorem solid_q_e_if (c : Ctx α) (hv : c.p.config = .visf) (tNuc dt i : α) (T : Array α) (j : Nat) :
+    qEvap c true (tNuc + dt * i) T j =
+      F2D.solid_q_e_if (t_nuc := tNuc) (dt := dt) (i := i) (t_vac_start := c.p.t_vac_start)
+        (t_vac_duration := c.p.t_vac_duration) (kappa := c.p.kappa) (m_water := c.p.m_water) (k_B := c.p.k_B)
+        (p_vac := c.p.p_vac) (T_k_m1 := rd c.Nr T (c.Nz - 1) j) (np_pi := c.p.pi) (dHe := c.p.dHe) := by
+  simp only [qEvap, hv, F2D.solid_q_e_if]
+  by_cases hw : c.p.t_vac_start * ofNat' 3600 < tNuc + dt * i ∧
+      tNuc + dt * i < (c.p.t_vac_start + c.p.t_vac_duration) * ofNat' 3600
+  · simp only [hw.1, hw.2, and_self, decide_true, Bool.and_self, if_true, Bool.true_or]
+    rfl
+  · simp only [Bool.and_eq_true, decide_eq_true_eq, hw, if_false]
+
 /-! ### hazard -/
 
 theorem J_z_r (c : Ctx α) (T : Array α) :
